@@ -44,7 +44,7 @@ def gen_case(rng, tier):
     else:
         gene = {"kind": "shipped", "name": rng.choice(cfg["shipped"]), "genome": "hg19"}
     return {"gene": gene, "seed": rng.randint(0, 10**9), "mode": mode,
-            "depth": rng.choice([10, 20]), "max_copies": rng.choice([1, 2, 2, 3]), "phase": rng.random() < 0.3}
+            "depth": rng.choice([6, 8, 10, 20]), "max_copies": rng.choice([1, 2, 2, 3]), "phase": rng.random() < 0.3}
 
 
 def gen_plan(rng, tier, i, seed):
@@ -290,7 +290,27 @@ class Evaluator:
                     return False
         return True
 
-    def brute(self, limit=MAX_ENUM):
+    def slot_excess(self, assign):
+        """Sites at which aldy's rule 6 (minor.py "6) Do the same for non-mutations") excludes this
+        assignment: the model counts, for every called allele, one reference slot per considered variant of
+        the site that the allele does not carry (two slots for an allele that carries neither of two
+        alternatives) and bounds the sum by max(copies, reference reads, variants at the site)."""
+        out = []
+        for p in self.sites:
+            here = [m for m in self.muts if m.pos == p]
+            if len(here) < 2:
+                continue
+            slots, maxn = 0, 0
+            for e in assign:
+                own = [m for m in self.definition(e[0], e[1]) if m.pos == p]
+                n = len(here) if self.gene.has_coverage(e[0], p) else len(own)
+                maxn = max(maxn, n)
+                slots += n - sum(1 for m in self.carried(e) if m.pos == p)
+            if slots > max(self.cn.position_cn(p), self.cov[self.M(p, "_")], maxn) + 1e-9:
+                out.append(p)
+        return out
+
+    def brute(self, limit=MAX_ENUM, skip=None):
         slots = []
         for major, cnt in sorted(self.major_counts.items()):
             opts = []
@@ -321,6 +341,8 @@ class Evaluator:
             assign = [e for part in parts for e in part]
             nenum += 1
             if self.rules(assign) or not self.admissible_extra(assign):
+                continue
+            if skip is not None and skip(assign):
                 continue
             o = self.objective(assign)
             if best is None or o < best[0]:
@@ -470,8 +492,17 @@ def run_case(case, seg, viol, stats, sample):
         stats["realigned_indel_cases"] = stats.get("realigned_indel_cases", 0) + 1
         detail0["realigned_indels"] = [[p_, o_, v_] for (p_, o_), v_ in sorted(indels.items())][:4]
 
-    def call():
+    def call(history=False):
         cov = SL.make_coverage(gene, table, profile, phases, indels=indels)
+        if history:
+            # the same evidence object was refined before, for a candidate that considers fewer sites
+            # (an API user looping over major solutions does that)
+            try:
+                k_ = max(1, len(cn))
+                small = MajorSolution(0, Counter({SolvedAllele(gene, "1"): k_}), CNSolution(gene, 0, ["1"] * k_), [])
+                MI.estimate_minor(gene, cov, [small], "cbc")
+            except Exception:
+                pass
         cns = CNSolution(gene, 0, cn)
         major = MajorSolution(0, Counter(SolvedAllele(gene, ma) for ma, mi in planted), cns, [])
         majors = [major]
@@ -551,6 +582,24 @@ def run_case(case, seg, viol, stats, sample):
     stats["runs"] += 1
     nsolves = SIM.solve_index
     plain = judge_solution(sols, ev, "plain")
+    if sols is not None and (case["phase"] or rng.random() < 0.3):
+        SIM.reset({"max_solves": 4000, "max_wall": 90.0, "monitor": False})
+        try:
+            sols_h, _ = call(history=True)
+        except Exception as ex:
+            sols_h = None
+            viol.append({"clause": "result depends on an earlier call that used the same evidence object",
+                         "detail": dict(detail0, error=repr(ex)[:200])})
+        stats["runs"] += 1
+        if sols_h is not None:
+            a_ = [[round(x.score, 6), sorted([y.major, y.minor, sorted(map(list, y.added)), sorted(map(list, y.missing))]
+                                             for y in x.solution)] for x in sols]
+            b_ = [[round(x.score, 6), sorted([y.major, y.minor, sorted(map(list, y.added)), sorted(map(list, y.missing))]
+                                             for y in x.solution)] for x in sols_h]
+            if not SIM.ever_exceeded and (len(a_) != len(b_) or any(abs(p_[0] - q_[0]) > 1e-4 for p_, q_ in zip(a_, b_))):
+                viol.append({"clause": "result depends on an earlier call that used the same evidence object",
+                             "detail": dict(detail0, fresh=a_[:2], after_history=b_[:2])})
+            stats["history_cases"] = stats.get("history_cases", 0) + 1
     if not sols:
         stats["empty"] += 1
     else:
@@ -562,10 +611,7 @@ def run_case(case, seg, viol, stats, sample):
     tb0 = ev.profile.minor_add * ev.n_vnew() / 1e6 * 6 + TOL
     # sites at which the model's reference-count bound (minor.py "6) Do the same for non-mutations") bites:
     # no reference reads and at least two considered alternative alleles (see known findings)
-    crowded_sites = [p for p in ev.sites
-                     if ev.cov[ev.M(p, "_")] == 0 and sum(1 for m in ev.muts if m.pos == p) >= 2]
-    if crowded_sites:
-        detail0 = dict(detail0, kind="multiallelic-site-without-reference-reads", sites=crowded_sites[:3])
+    # (the finding is identified by its mechanism where the clauses are judged: see Evaluator.slot_excess)
     # brute-force reference (tiny instances, phase off)
     if not case["phase"]:
         best, nenum = ev.brute()
@@ -576,12 +622,21 @@ def run_case(case, seg, viol, stats, sample):
                 # the reference found nothing admissible: only flag if the report violates the rules (done above)
                 pass
             elif best is not None and not sols:
+                ok, _ = ev.brute(skip=ev.slot_excess)
+                d1 = detail0
+                if ok is None:
+                    # every admissible assignment is excluded by the model's reference-slot bound
+                    d1 = dict(detail0, kind="nonmutation-slot-bound", sites=ev.slot_excess(best[1])[:3])
                 viol.append({"clause": "an admissible assignment exists but no refinement is reported",
-                             "detail": dict(detail0, optimum=best[0])})
+                             "detail": dict(d1, optimum=best[0])})
             elif best is not None and plain:
                 # the reported score may include unpaid post-processing: compare through the evaluator's own value
                 mine = min(_candidates_scores(ev, plain[0][0]))
                 if mine > best[0] + tb0:
+                    ok, _ = ev.brute(skip=ev.slot_excess)
+                    if ev.slot_excess(best[1]) and (ok is None or mine <= ok[0] + tb0):
+                        # what is reported is optimal among the assignments the reference-slot bound lets through
+                        detail0 = dict(detail0, kind="nonmutation-slot-bound", sites=ev.slot_excess(best[1])[:3])
                     viol.append({"clause": "an admissible assignment scores lower than the reported refinement",
                                  "detail": dict(detail0, reported=mine, optimum=best[0],
                                                 witness=[[e[0], e[1], [list(m) for m in e[2]], [list(m) for m in e[3]]]
